@@ -211,7 +211,7 @@ class Scenario:
             if k == "flags":
                 out.append("F%d" % o[1])
             elif k == "jid":
-                out.append("J%d%d" % (o[1], o[2]))
+                out.append("J%d%d" % (o[1], min(o[2], 1)))
             elif k == "pass":
                 out.append("P%d" % o[1])
             elif k == "cert":
@@ -260,7 +260,7 @@ class Scenario:
                 if comp:
                     j = "comp.example.com"
                 else:
-                    j = ("user@" if o[1] else "") + "example.com" + ("/res" if o[2] else "")
+                    j = ("user@" if o[1] else "") + "example.com" + ("/" + RES_SLASH if o[2] == 2 else "/res" if o[2] else "")
                 cmds.append("jid " + H(j))
             elif k == "pass":
                 if o[1]:
@@ -420,7 +420,7 @@ def tag_end(text, i):
     return -1
 
 
-def classify(kind, xml):
+def classify(kind, xml, res_text="res"):
     if kind == "header":
         # the scenarios configure example.com (client, user@example.com[/res]) or comp.example.com (component)
         to = re.search(r'\sto="([^"]*)"', xml)
@@ -448,7 +448,7 @@ def classify(kind, xml):
         return "compress"
     if name == "iq":
         if '_xmpp_bind1' in head:
-            if "<resource>" in xml and "<resource>res</resource>" not in xml:
+            if "<resource>" in xml and ("<resource>%s</resource>" % res_text) not in xml:
                 return "bind!res"
             return "bind+res" if "<resource>" in xml else "bind"
         if '_xmpp_session1' in head:
@@ -474,7 +474,14 @@ def classify(kind, xml):
     return "other(%s)" % name
 
 
-def canon_trace(line):
+RES_SLASH = "res/x"          # resource of the configuration ("jid", node, 2): everything after the FIRST slash
+
+
+def res_text_of(sim):
+    return RES_SLASH if H("/" + RES_SLASH) in sim else "res"
+
+
+def canon_trace(line, res_text="res"):
     """-> (tokens, info) ; info: {'end':..., 'anomalies':[...], 'connect_is':[...], ...}"""
     toks = []
     info = {"anomalies": [], "end": None, "crash": None, "events": []}
@@ -492,7 +499,7 @@ def canon_trace(line):
         if m:
             data = bytes.fromhex(m.group(2)).decode("latin1") if m.group(2) != "-" else ""
             for kind, xml in split_toplevel(data):
-                toks.append("%s:%s" % (m.group(1), classify(kind, xml)))
+                toks.append("%s:%s" % (m.group(1), classify(kind, xml, res_text)))
             continue
         if p == "|":
             toks.append("|")
@@ -554,7 +561,7 @@ def run_scenarios(chk, pid, scenarios, stream="neg"):
         chk.broken.append({"kind": "extract", "name": "Extract_%s" % pid, "detail": str(e)[:500]})
     res = []
     for i, sc in enumerate(scenarios):
-        toks, info = canon_trace(impl[i])
+        toks, info = canon_trace(impl[i], res_text_of(sim_lines[i]))
         mt = model[i].split(" ") if model is not None else None
         if getattr(sc, "impl_only", False):
             mt = None
@@ -1413,6 +1420,20 @@ def userid_scenarios(rng, thorough=False):
     return S
 
 
+def slashres_scenarios(rng, thorough=False):
+    """C03: the configured address carries a resource that itself contains a slash (user@example.com/res/x): the bind
+    request asks for exactly that resource (everything after the first slash), the header names the bare address."""
+    S = []
+    for name, fl, kind, setup, steps in stage_sessions():
+        if kind != "client":
+            continue
+        for fl2 in (fl, fl | 1):
+            ops = base_ops(flags=fl2, res=2) + list(setup) + [("connect", kind, ["accept"]), ("run", None)] + runs(*steps)
+            ops += [("is",), ("run", "close"), ("run", None), ("release",)]
+            S.append(Scenario(ops, "slashres:%s:%d" % (name, fl2)))
+    return S
+
+
 def refused_call_scenarios(rng, thorough=False):
     """C13: a second connect call of every kind made on an object whose attempt is in progress -- while the TCP connect
     is still pending (before the first loop iteration) and at every later stage -- is refused and leaves the accepted
@@ -1761,7 +1782,7 @@ def replay_common(pid, path):
         return 1
     exe = vlib.build_simworld()
     impl = vlib.run_lines(exe, [case["sim"]])[0]
-    toks, info = canon_trace(impl)
+    toks, info = canon_trace(impl, res_text_of(case["sim"]))
     try:
         model = vlib.run_lines(vlib.build_ocaml_model(pid), [case["model_in"]])[0]
     except vlib.BuildError:
